@@ -76,7 +76,19 @@ def run(ctx: Ctx) -> None:
             for act in ("ReaderNext", "RReadList", "RReadManifest", "RReturn", "FlipHint"):
                 if res.coverage.get(act, 0) == 0:
                     raise MachineryError(f"vacuous model run '{label}': action {act} never taken (coverage {res.coverage})")
-        c01.conformance(ctx, scenarios(quick), n_random=15 if quick else 300, n_double=15 if quick else 300, stride=2 if quick else 1)
+        def reader_faults(scn: Scenario, steps: Dict[str, int]) -> List[Tuple[str, Any]]:
+            """A transient storage error at every step of a read, with the writer paused at every point of its commit
+            (in particular between its metadata write and the pointer flip): the read must raise, never answer from
+            somewhere else."""
+            if scn.name != "rd-vs-2file-tx":
+                return []
+            jobs: List[Tuple[str, Any]] = []
+            for wk in range(0, steps["c1"] + 1, 3 if quick else 1):
+                for rk in range(0, steps["r1"] + 1, 2 if quick else 1):
+                    jobs.append(("list", [["c1", wk], ["r1", rk], ["fault", "r1", "before", "oserror"], ["r1", 400], ["c1", 400]]))
+            return jobs
+
+        c01.conformance(ctx, scenarios(quick), n_random=15 if quick else 300, n_double=15 if quick else 300, stride=2 if quick else 1, extra_jobs=reader_faults)
     finally:
         l1.close_pool()
     ctx.rule("model: all interleavings of reader steps with writer steps for the listed scenarios; implementation: single-pause, double-pause and random "
